@@ -601,12 +601,52 @@ func (c *c08Ctx) checkParsedFrame(p *FrameParser, g c08FrameCfg, f Frame, exact 
 	case tl2+n2 != len(enc):
 		c.fail("reparse-consumed:"+kind, "%s: re-encoding %x of %s is %d bytes long, parsing it consumed %d+%d (original input %s)", g, enc, c08FrameString(f), len(enc), tl2, n2, c08Hex(orig))
 	default:
-		if d := c08FrameDiff(f, f2); d != "" {
+		want := f
+		if a, isAck := f.(*AckFrame); isAck && g.effExp() != protocol.AckDelayExponent {
+			// This parser scales the ACK delay with the peer's exponent, the encoder with its
+			// own (3): on this parser the delay is not expected back (every other field is).
+			// "Re-encoding anything that parsed successfully parses to the same result again"
+			// is demanded from a parser on which the encoder's exponent is in force.
+			if a2, ok := f2.(*AckFrame); ok {
+				cp := *a
+				cp.DelayTime = a2.DelayTime
+				want = &cp
+			}
+			c.checkAckReparseOwnExponent(g, a, enc, v, orig)
+		}
+		if d := c08FrameDiff(want, f2); d != "" {
 			c.fail("reparse-differs:"+kind+"."+d, "%s: parse(%s) = %s, its re-encoding %x parses to %s (field %s)", g, c08Hex(orig), c08FrameString(f), enc, c08FrameString(f2), d)
 		}
 	}
 	if f2 != nil && f2 != f {
 		c08Release(f2)
+	}
+}
+
+// checkAckReparseOwnExponent: a was parsed (from orig) by a parser with configuration g, on
+// which an ack delay exponent other than the encoder's is in force; enc is its re-encoding.
+// A parser with the same flags at the same level on which the encoder's exponent (3) is in
+// force has to parse enc completely, to a again; the delay comes back in whole wire units of
+// the encoder (8 microseconds, rounded towards zero: sub-unit precision is outside the
+// wire-representable domain).
+func (c *c08Ctx) checkAckReparseOwnExponent(g c08FrameCfg, a *AckFrame, enc []byte, v protocol.Version, orig []byte) {
+	g3 := g
+	g3.exp = protocol.AckDelayExponent
+	key := fmt.Sprintf("ACK[parsed-with-exponent-%s-3]", map[bool]string{true: "above", false: "below"}[g.effExp() > protocol.AckDelayExponent])
+	_, f3, tl3, n3, err3 := c.c08ParseOne(c.parser(g3), g3, enc, v)
+	a3, ok := f3.(*AckFrame)
+	switch {
+	case err3 != nil || !ok:
+		c.fail("reparse-reject:"+key, "%s: parse(%s) = %s, its re-encoding %x does not parse with the encoder's exponent in force: %v", g, c08Hex(orig), c08FrameString(a), enc, err3)
+	case tl3+n3 != len(enc):
+		c.fail("reparse-consumed:"+key, "%s: parse(%s) = %s, its re-encoding %x is %d bytes long, parsing it with the encoder's exponent in force consumed %d+%d", g, c08Hex(orig), c08FrameString(a), enc, len(enc), tl3, n3)
+	default:
+		const unit = time.Microsecond << protocol.AckDelayExponent
+		want := *a
+		want.DelayTime = a.DelayTime / unit * unit
+		if d := c08FrameDiff(&want, a3); d != "" {
+			c.fail("reparse-differs:"+key+"."+d, "%s: parse(%s) = %s, its re-encoding %x parses with the encoder's exponent in force to %s, expected %s (field %s)", g, c08Hex(orig), c08FrameString(a), enc, c08FrameString(a3), c08FrameString(&want), d)
+		}
 	}
 }
 
